@@ -64,6 +64,16 @@ def gen(rng, tier):
     return {'kind': 'sim', 'prop': p, 'case': mod.gen(rng, tier)}
 
 
+def sweep(tier):
+    """Complete over the interpolation grids (one bounds-check batch, and every grid in the arena)."""
+    from e3_arena import kernels as K
+    cs = list(K.all_interp())
+    yield {'kind': 'bc', 'cases': [{'kernel': 'power_spectrum.linear_interp', 'args': a} for a in cs]}
+    for a in cs:
+        if a['where'] == 'ulp-below-last':
+            yield {'kind': 'arena', 'kernel': 'power_spectrum.linear_interp', 'args': a}
+
+
 def kernel_call(case, arena):
     """Entry point for the bounds-check child."""
     from e3_arena import kernels as K
